@@ -120,7 +120,7 @@ META = {
     "C19": dict(
         text="Exploration, exhaustive for small cases: all interleavings of the chunk sequences of small multi-stream cases (thousands of bubble runs per check) and random interleavings of large ones are fed to the real demultiplexer and connection loop; the structural invariant of the stream-buffer heap is asserted under the demultiplexer's own lock at every quiescent point.",
         design_ref="DESIGN.md section 4, C19",
-        note="Needs the verif hook (one added file in package diam) because the sandbox kernel has no SCTP and the embedded socket type is concrete; the in-memory association models partial delivery and per-read stream tags.",
+        note="One open known finding (D48, known_findings.json: a complete message of another stream is lost when the association ends inside a message). Needs the verif hook (one added file in package diam) because the sandbox kernel has no SCTP and the embedded socket type is concrete; the in-memory association models partial delivery and per-read stream tags.",
         technique="runtime monitoring through an in-memory SCTP backend hook: per-stream exactly-once/order/integrity checker, reply-stream log, heap-invariant hook at quiescent points, race detector",
     ),
 }
